@@ -32,19 +32,26 @@
 (*        backing off (C13)                                                *)
 (*   S14  undecodable signature in an appointment response: the task       *)
 (*        aborts (hook never answers / retrier stays "running") (C14, C05) *)
-(*   S15  a second record for a (tower, appointment) that already has one  *)
-(*        (duplicate notification, re-delivery after a kill): the insert   *)
-(*        fails, the task aborts holding the state mutex and every later   *)
-(*        handler aborts too; with a record of another kind a second       *)
-(*        record is added (C05, C14)                                       *)
+(*   S15  a second FINAL record of the other kind is added to a (tower,    *)
+(*        appointment) that has one: accepted next to invalid (C05)        *)
+(*   S15p (repaired; kept for the vacuity runs) the insert of a row that   *)
+(*        exists fails, the task aborts holding the state mutex and every  *)
+(*        later handler aborts too                                         *)
+(*   S21  the retrier sends / loads whatever is in its set: an appointment *)
+(*        delivered meanwhile is sent again or, when its body is gone,     *)
+(*        makes the task abort holding the state mutex (C05)               *)
 (*   S16  see ClientStore (C18)                                            *)
 (*   S19  a revocation for a tower shown "unreachable" is not passed to    *)
 (*        its retrier - also when that retrier has just been woken and has *)
 (*        already reloaded the pending data from disk: the appointment     *)
 (*        stays pending while the tower is shown reachable (C13)           *)
-(*   S18  a retrier is started for a tower already proven misbehaving (a   *)
-(*        handler that copied the statuses earlier asked for it): the      *)
-(*        status is overwritten and the tower is sent to again (C14)       *)
+(*   S20  registertower against a known tower that refuses the connection  *)
+(*        flags it temporarily unreachable although no retrier looks after *)
+(*        it: it stays like that when the tower is back (C13)              *)
+(*   S18  a retrier is started / goes on for a tower already proven        *)
+(*        misbehaving (a handler that copied the statuses earlier asked    *)
+(*        for it): the tower is sent to again (C14).  S18o (repaired): the *)
+(*        status "misbehaving" was overwritten on top of that              *)
 (* A state remembers in c.dev which deviations were needed to reach it.    *)
 (***************************************************************************)
 EXTENDS ClientStore, Sequences, TLC
@@ -120,23 +127,30 @@ SameRow(db, t, l, kind) ==
       [] kind = "pending"  -> Ref(t, l) \in db.pend
       [] kind = "invalid"  -> Ref(t, l) \in db.inv
 
-\* A task that aborts while it holds the state mutex poisons it: outcome "poison".  Outcome records: [st, out, dev]
-Ok(st) == [st |-> st, out |-> "ok", dev |-> {}]
-OkDev(st, d) == [st |-> st, out |-> "ok", dev |-> {d}]
-Poison(st) == [st |-> st, out |-> "poison", dev |-> {"S15"}]
+\* A task that aborts while it holds the state mutex poisons it: outcome "poison".  Outcome records: [st, out, dev, mv]
+\* (mv: the appointment is, from now on, on its way to the tower once more although it has a final record)
+Ok(st) == [st |-> st, out |-> "ok", dev |-> {}, mv |-> FALSE]
+OkDev(st, d) == [st |-> st, out |-> "ok", dev |-> {d}, mv |-> FALSE]
+OkMv(st) == [st |-> st, out |-> "ok", dev |-> {}, mv |-> TRUE]
+Poison(st) == [st |-> st, out |-> "poison", dev |-> {"S15"}, mv |-> FALSE]
 
 \* Recording an outcome for (t, l).  No record yet: add it.  A record exists (duplicate notification, re-delivery):
 \* the property only asks that exactly one record remains - the old one or (unless the retrier is just moving it)
-\* the new one.  S15: what the code does.
+\* the new one.  A duplicate that cannot be delivered may also be queued for the tower once more (pending next to the
+\* final record): that is a delivery in progress like the one a kill in the middle of a move leaves behind, and it
+\* ends the same way - the final record stays, the pending reference goes.
+\* S15: what the code did (insert fails: abort holding the mutex - repaired) and still does (a final record of the
+\* other kind, accepted next to invalid, is simply added).
 Record(c, t, l, kind, slots) ==
     LET st == c.st IN
     IF ~Known(c, t) THEN {Ok(st)}
     ELSE IF Kinds(st.db, t, l) = {} THEN {Ok(AddKind(st, t, l, kind, slots))}
     ELSE {Ok(st)}
          \cup (IF <<t, l>> \in c.moving THEN {} ELSE {Ok(AddKind(Forget(st, t, l), t, l, kind, slots))})
-         \cup (IF Dev("S15")
-               THEN (IF SameRow(st.db, t, l, kind) THEN {Poison(st)} ELSE {OkDev(AddKind(st, t, l, kind, slots), "S15")})
-               ELSE {})
+         \cup (IF kind = "pending" /\ "pending" \notin Kinds(st.db, t, l) THEN {OkMv(AddKind(st, t, l, kind, slots))} ELSE {})
+         \cup (IF Dev("S15p") /\ SameRow(st.db, t, l, kind) THEN {Poison(st)} ELSE {})
+         \cup (IF Dev("S15") /\ kind # "pending" /\ ~SameRow(st.db, t, l, kind) /\ Kinds(st.db, t, l) \ {"pending"} # {}
+               THEN {OkDev(AddKind(st, t, l, kind, slots), "S15")} ELSE {})
 
 \* the first proof against a tower is the one that is kept
 Flag(st, t, l) == IF HasProof(st.db, t) THEN st ELSE FlagMisbehaving(st, t, l)
@@ -146,11 +160,11 @@ Tell(c, t, l) == IF c.inmap[t] \in {"none", "running"} THEN c.chan \cup {[t |-> 
 
 Done(c, t, l) == IF Known(c, t) THEN c.done \cup {<<t, l>>} ELSE c.done
 
-\* The status of a tower proven misbehaving is final.  S18: the code overwrites it (a handler or a retrier that read the
-\* status earlier goes on as if nothing had happened).
+\* The status of a tower proven misbehaving is final (a handler or a retrier that read the status earlier may still
+\* report what it saw).  S18o (repaired): the code overwrote it.
 SetSt(c, t, s) ==
     IF Known(c, t) /\ Status(c, t) = "misbehaving" /\ s # "misbehaving"
-    THEN (IF Dev("S18") THEN [c EXCEPT !.st = SetStatus(@, t, s), !.dev = @ \cup {"S18"}] ELSE c)
+    THEN (IF Dev("S18o") THEN [c EXCEPT !.st = SetStatus(@, t, s), !.dev = @ \cup {"S18"}] ELSE c)
     ELSE [c EXCEPT !.st = SetStatus(@, t, s)]
 
 MaxDied == 3
@@ -182,7 +196,8 @@ NotAfter(c, n, t, o, chan2, devs) ==
     THEN [NotDies(c, n) EXCEPT !.poisoned = TRUE, !.dev = @ \cup o.dev]
     ELSE [SetNot(c, n, [n EXCEPT !.pc = "loop", !.cur = NoTower, !.rep = NoRep,
                                   !.todo = {x \in @ : x[1] # t}])
-          EXCEPT !.st = o.st, !.chan = chan2, !.done = Done(c, t, n.l), !.dev = @ \cup devs \cup o.dev]
+          EXCEPT !.st = o.st, !.chan = chan2, !.done = Done(c, t, n.l), !.dev = @ \cup devs \cup o.dev,
+                 !.moving = IF o.mv /\ Known(c, t) THEN @ \cup {<<t, n.l>>} ELSE @]
 
 \* could not deliver: keep the data for the retrier; why = "conn" | "sub" | "keep"
 NotPending(c, n, t, why, tell, devs) ==
@@ -227,7 +242,7 @@ NotifyRecv(c, n) ==
             [] r.cls = "badsig" ->
                  \* the receipt signed by somebody else is kept as the proof; the tower is not used any more
                  \* (S15: a receipt row for (t, l) or a proof row for t exists already: the insert fails)
-                 ((IF Known(c, t) /\ (HasRcpt(c.st.db, t, l) \/ HasProof(c.st.db, t)) /\ Dev("S15")
+                 ((IF Known(c, t) /\ (HasRcpt(c.st.db, t, l) \/ HasProof(c.st.db, t)) /\ Dev("S15p")
                    THEN {NotAfter(c, n, t, Poison(c.st), c.chan, {})}
                    ELSE {})
                   \cup {NotAfter(c, n, t, Ok(Flag(c.st, t, l)), c.chan, {})})
@@ -258,11 +273,16 @@ RegCall(c, id, t) == IF ~c.alive THEN {c} ELSE {[c EXCEPT !.regs = @ \cup {NewRe
 RegCanSend(c, g) == g.pc = "new" /\ ~c.poisoned
 RegSend(c, g, seq) == SetReg(c, g, [g EXCEPT !.pc = "wait", !.seq = seq])
 
-\* connection refused: a known tower is flagged temporarily unreachable (nobody is told)
+\* connection refused: the call fails, nothing else changes.  S20: the code flags a known tower temporarily unreachable
+\* without telling the retry manager - with nothing pending nobody ever flags it reachable again.
 RegRefused(c, g) ==
     IF g.pc # "new" \/ c.up[g.t] THEN {}
     ELSE IF c.poisoned THEN {Die([c EXCEPT !.regs = @ \ {g}])}
-    ELSE {SetReg(IF Known(c, g.t) THEN SetSt(c, g.t, "temporary_unreachable") ELSE c, g, [g EXCEPT !.pc = "err"])}
+    ELSE IF Dev("S20") /\ Known(c, g.t)
+         THEN {SetReg([SetSt(c, g.t, "temporary_unreachable")
+                       EXCEPT !.dev = IF Status(c, g.t) = "reachable" THEN @ \cup {"S20"} ELSE @],
+                      g, [g EXCEPT !.pc = "err"])}
+         ELSE {SetReg(c, g, [g EXCEPT !.pc = "err"])}
 
 \* C14 RegRecorded: only a receipt that verifies under the tower id and strictly extends what is known is recorded
 RegApply(st, t, r) ==
@@ -349,7 +369,10 @@ RunBegin(c, t) ==
 
 \* what the loop would send next: a registration renewal or one of its pending appointments
 RunCanSendReg(c, t, now) == Running(c, t) /\ c.rt[t].pc = "reg" /\ now >= c.rt[t].nbf
-Sendable(c, t, l) == l \in c.st.db.bodies /\ Ref(t, l) \in c.st.db.pend
+\* only what is (still) pending for the tower is sent.  S21: the retrier sends whatever is in its set and still stored
+\* (a revocation notified again while the retrier was delivering it comes back to the set after the delivery) and
+\* aborts, holding the state mutex, when the appointment is not stored any more.
+Sendable(c, t, l) == l \in c.st.db.bodies /\ (Ref(t, l) \in c.st.db.pend \/ Dev("S21"))
 \* nothing is sent to a tower proven misbehaving (S18: the loop does not look)
 Stopped(c, t) == Known(c, t) /\ Status(c, t) = "misbehaving" /\ ~Dev("S18")
 RunCanSendAdd(c, t, l, now) == /\ Running(c, t) /\ c.rt[t].pc = "loop" /\ l \in c.rt[t].pend /\ Sendable(c, t, l)
@@ -359,7 +382,8 @@ RunSendReg(c, t, seq) == [c EXCEPT !.rt[t].pc = "regwait", !.rt[t].seq = seq, !.
 RunSendAdd(c, t, l, seq) ==
     [c EXCEPT !.rt[t].pc = "wait", !.rt[t].cur = l, !.rt[t].seq = seq, !.rt[t].nbf = 0, !.rt[t].ft = 0,
               !.sentMis = IF HasProof(c.st.db, t) THEN @ \cup {t} ELSE @,
-              !.dev = IF HasProof(c.st.db, t) THEN @ \cup {"S18"} ELSE @]
+              !.dev = @ \cup (IF HasProof(c.st.db, t) THEN {"S18"} ELSE {})
+                        \cup (IF Ref(t, l) \notin c.st.db.pend THEN {"S21"} ELSE {})]
 
 \* transient failure at time ft: the strategy sleeps (back-off); minb = minimal back-off
 RunFail(c, t, ft, minb) == [c EXCEPT !.rt[t].pc = "fail", !.rt[t].cur = NoLoc, !.rt[t].rep = NoRep, !.rt[t].nf = IF @ < 2 THEN @ + 1 ELSE @,
@@ -375,13 +399,12 @@ RunLocal(c, t) ==
                ELSE IF c.poisoned THEN {RunDies(c, t)}
                ELSE IF Stopped(c, t) THEN {[c EXCEPT !.rt[t].pc = "end_gone"]}
                ELSE (IF c.up[t] THEN {} ELSE {RunFail(c, t, 0, 0)})
-                    \* something that is not pending (any more) is not sent; a body that is gone cannot be (the code
-                    \* aborts on it: only reachable after another deviation)
+                    \* something that is not pending (any more) is not sent: it leaves the set
                     \cup (IF \E l \in r.pend : ~Sendable(c, t, l)
                           THEN {[c EXCEPT !.rt[t].pend = {l \in @ : Sendable(c, t, l)}]}
-                               \cup (IF c.dev # {} /\ \E l \in r.pend : l \notin c.st.db.bodies
-                                     THEN {[RunDies(c, t) EXCEPT !.poisoned = TRUE]} ELSE {})
-                          ELSE {}))
+                          ELSE {})
+                    \cup (IF Dev("S21") /\ \E l \in r.pend : l \notin c.st.db.bodies
+                          THEN {[RunDies(c, t) EXCEPT !.poisoned = TRUE, !.dev = @ \cup {"S21"}]} ELSE {}))
     ELSE {}
 
 RunRegRecv(c, t, tm) ==
@@ -401,10 +424,9 @@ RunMoveAdd(c, t, l, kind, slots) ==
         outs == IF ~Known(c, t) THEN {Ok(c.st)}
                 ELSE IF final = {} THEN {Ok(AddKind(c.st, t, l, kind, slots))}
                 ELSE {Ok(c.st)}
-                     \cup (IF Dev("S15")
-                           THEN (IF SameRow(c.st.db, t, l, kind) THEN {Poison(c.st)}
-                                 ELSE {OkDev(AddKind(c.st, t, l, kind, slots), "S15")})
-                           ELSE {})
+                     \cup (IF Dev("S15p") /\ SameRow(c.st.db, t, l, kind) THEN {Poison(c.st)} ELSE {})
+                     \cup (IF Dev("S15") /\ ~SameRow(c.st.db, t, l, kind)
+                           THEN {OkDev(AddKind(c.st, t, l, kind, slots), "S15")} ELSE {})
     IN {IF o.out = "poison" THEN [RunDies(c, t) EXCEPT !.poisoned = TRUE, !.dev = @ \cup o.dev]
         ELSE [c EXCEPT !.st = o.st, !.rt[t].pc = "got2", !.rt[t].pend = @ \ {l}, !.rt[t].nf = 0,
                        !.moving = IF Known(c, t) THEN @ \cup {<<t, l>>} ELSE @, !.dev = @ \cup o.dev] : o \in outs}
@@ -459,7 +481,7 @@ RunEnd(c, t) ==
            [] r.pc = "end_sub" ->
                 {SetSt([done EXCEPT !.rt[t] = [RetAbsent EXCEPT !.s = "failed"]], t, "subscription_error")}
            [] r.pc = "end_misb" ->
-                (IF Known(c, t) /\ (HasRcpt(c.st.db, t, r.cur) \/ HasProof(c.st.db, t)) /\ Dev("S15")
+                (IF Known(c, t) /\ (HasRcpt(c.st.db, t, r.cur) \/ HasProof(c.st.db, t)) /\ Dev("S15p")
                  THEN {[RunDies(c, t) EXCEPT !.poisoned = TRUE, !.dev = @ \cup {"S15"}]} ELSE {})
                 \cup {[done EXCEPT !.st = Flag(@, t, r.cur), !.rt[t] = [RetAbsent EXCEPT !.s = "failed"]]}
            [] r.pc = "end_gone" -> {[done EXCEPT !.rt[t] = [RetAbsent EXCEPT !.s = "failed"]]}
